@@ -287,15 +287,18 @@ pub fn write_seeds(dir: &str) {
         (3, serde_json::to_string(&msgs::GetSubscriptionInfoRequest { signature: "sig".into() }).unwrap()),
         (4, serde_json::to_string(&msgs::RegisterResponse { user_id: vec![2; 33], available_slots: 100, subscription_start: 1, subscription_expiry: 2, subscription_signature: "s".into() }).unwrap()),
         (5, serde_json::to_string(&msgs::AddAppointmentResponse { locator: vec![1; 16], start_block: 7, signature: "s".into(), available_slots: 3, subscription_expiry: 9 }).unwrap()),
+        (6, serde_json::to_string(&msgs::GetAppointmentResponse { appointment_data: Some(msgs::AppointmentData { appointment_data: Some(msgs::appointment_data::AppointmentData::Tracker(msgs::Tracker { dispute_txid: vec![1; 32], penalty_txid: (0..32).collect(), penalty_rawtx: vec![5; 60] })) }), status: 2 }).unwrap()),
+        (6, serde_json::to_string(&msgs::GetAppointmentResponse { appointment_data: Some(msgs::AppointmentData { appointment_data: Some(msgs::appointment_data::AppointmentData::Appointment(msgs::Appointment { locator: vec![1; 16], encrypted_blob: vec![9; 40], to_self_delay: 42 })) }), status: 1 }).unwrap()),
+        (7, serde_json::to_string(&msgs::GetSubscriptionInfoResponse { available_slots: 3, subscription_expiry: 9, locators: vec![vec![1; 16], vec![2; 16]] }).unwrap()),
         (8, serde_json::to_string(&Appointment::new(Locator::from_slice(&[3; 16]).unwrap(), vec![1, 2, 3], 42)).unwrap()),
         (9, serde_json::to_string(&Locator::from_slice(&[3; 16]).unwrap()).unwrap()),
         (10, serde_json::to_string(&UserId(crate::world::user_pk(1))).unwrap()),
         (11, "{\"error\":\"x\",\"error_code\":7}".to_string()),
     ];
-    for (sel, t) in texts {
+    for (i, (sel, t)) in texts.into_iter().enumerate() {
         let mut b = vec![sel];
         b.extend_from_slice(t.as_bytes());
-        w("wire", &format!("type-{sel}"), b);
+        w("wire", &format!("type-{sel}-{i}"), b);
     }
     w("wire", "layout", {
         let mut b = vec![13u8];
